@@ -49,6 +49,7 @@ def actions(level="std"):
     un("sort a", lambda c: "a" in c, lambda ch, o, i: ("sort", ch, ((A, True),), o))
     un("sort none", lambda c: True, lambda ch, o, i: ("sort", ch, (), o))
     plain("slice s:e", lambda c: True, lambda ch, o, i: ("slice", ch, f"$s{i}", f"$e{i}"))
+    un("slice s:e (apply)", lambda c: True, lambda ch, o, i: ("slice", ch, f"$s{i}", f"$e{i}", o))
     plain("mat", lambda c: True, lambda ch, o, i: ("mat", ch))
     for e in ENGINES:
         plain(f"to {e}", lambda c: True, lambda ch, o, i, e=e: ("xfer", ch, e))
